@@ -12,21 +12,73 @@ def rules(t):
     out.append(r)
     pp = t.fn("RenetClient::process_packet")
     r = RuleResult("C06.b", "every parse / channel error on the packet path disconnects with a reason and returns", floor=8)
-    for c in list(t.calls(r"packet::Packet::from_bytes$", pp)) + list(t.calls(r"ReceiveChannelReliable::process_message$", pp)) + list(t.calls(r"Receive(ChannelReliable|ChannelUnreliable)::process_slice$", pp)):
+    DIS = r"RenetClient::disconnect_with_reason$"
+    def closure_tag(g): return re.search(r"\{closure#\d+\}$", g.path).group(0)
+    def consumers(g):
+        """calls in the creating function that are handed closure g"""
+        par = owner_fn(t, g)
+        tag = closure_tag(g)
+        return par, [x for x in t.sites(par) if x.node["k"] == "call" and any(tag in fmt(y) for y in t.args(x))]
+    def disconnect_in(g, region=None):
+        return [x for x in t.calls(DIS, g) if region is None or x.bb in region]
+    def err_handled(g, c, depth=0):
+        """the Err of call c (in function/closure g) leads to a disconnect: directly on its error edge, or after travelling as a Result value
+        (`map_err`, `?`, closure result -> `try_for_each`, arm value -> `if let Err(reason) = outcome`) to a test whose error edge disconnects"""
+        if depth > 4: return False
+        me = norm(g.call_origin(c.node))
+        e = t.result_edges(g, c)
+        if e:
+            reg = g.reachable_from([e[1][1]])
+            if any(not t.edge_dominates(g, e[0], x.bb) for x in disconnect_in(g, reg)): return True
+        # the value is inspected later (possibly wrapped): a discriminant test on something that contains it, whose non-zero (Err / Break) edge disconnects
+        for br in t.branches(g):
+            if br["kind"] != "discr" or not contains(norm(br["on"]), lambda x: x == me): continue
+            if e and br["bb"] == e[0][0]: continue
+            for v_, tgt in list(br["targets"].items()) + [(None, br["otherwise"])]:
+                if v_ == 0: continue
+                if disconnect_in(g, g.reachable_from([tgt])): return True
+        # a closure handed to an adaptor of the value disconnects (`.map_err(|e| self.disconnect_with_reason(..))`, `unwrap_or_else`, `if let Err(e) = .. `)
+        for g2 in fn_and_closures(t, owner_fn(t, g)):
+            if "{closure" not in g2.path or not disconnect_in(g2): continue
+            par, cons = consumers(g2)
+            if any(contains(norm(t.arg(x, 0)), lambda y: y == me) for x in cons if x.node["args"]): return True
+        # the value leaves a closure as (part of) its result: follow it into the consumer of the closure
+        if "{closure" in g.path:
+            ret = norm(g.origin_of_local(0))
+            flows = contains(ret, lambda x: x == me) or (e is not None)
+            if flows:
+                par, cons = consumers(g)
+                for x in cons:
+                    if x.node.get("target") is None: continue
+                    if err_handled(par, x, depth + 1): return True
+        return False
+    callsites = []
+    for g in fn_and_closures(t, pp):
+        callsites += [(g, c) for c in list(t.calls(r"packet::Packet::from_bytes$", g)) + list(t.calls(r"ReceiveChannelReliable::process_message$", g)) + list(t.calls(r"Receive(ChannelReliable|ChannelUnreliable)::process_slice$", g))]
+    for g, c in callsites:
         r.site(c, short(callee_name(c.node)))
-        e = t.result_edges(pp, c)
-        if not e: r.bad(f"unchecked|{short(callee_name(c.node))}", c, "result not checked"); continue
-        err_only = pp.reachable_from([e[1][1]]) - pp.reachable_from([e[0][1]])
-        dis = [x for x in t.calls(r"RenetClient::disconnect_with_reason$", pp) if x.bb in err_only or x.bb in pp.reachable_from([e[1][1]])]
-        if not any(x.bb in pp.reachable_from([e[1][1]]) and not t.edge_dominates(pp, e[0], x.bb) for x in dis): r.bad(f"no-disconnect|{short(callee_name(c.node))}", c, "error edge does not disconnect the connection")
-    for c in t.calls(r"HashMap.*::get_mut$", pp):
-        if "receive_" in fmt(t.arg(c, 0)):
+        if not err_handled(g, c): r.bad(f"no-disconnect|{short(callee_name(c.node))}", c, "the error of this call does not lead to disconnect_with_reason (result dropped, or its error edge does not disconnect)")
+    for g in fn_and_closures(t, pp):
+        for c in t.calls(r"HashMap.*::get_mut$", g):
+            if "receive_" not in fmt(resolved(t, t.arg(c, 0), g)): continue
             r.site(c, "channel lookup")
-            e = t.result_edges(pp, c)
+            me = norm(g.call_origin(c.node))
+            e = t.result_edges(g, c)
+            ok = False
             if e:
-                reg = pp.reachable_from([e[1][1]])
-                inv = [s for s in t.aggrs("error::DisconnectReason", "ReceivedInvalidChannelId", pp) if s.bb in reg]
-                if not inv: r.bad("invalid-channel", c, "unknown channel id is not turned into ReceivedInvalidChannelId")
+                reg = g.reachable_from([e[1][1]])
+                ok = any(s_.bb in reg for s_ in t.aggrs("error::DisconnectReason", "ReceivedInvalidChannelId", g))
+            if not ok:
+                # `.ok_or(ReceivedInvalidChannelId(id))?` / `.ok_or_else(|| ..)`: the None case is turned into the reason by the adaptor
+                for x in t.calls(r"Option.*::ok_or(_else)?$", g):
+                    if contains(norm(t.arg(x, 0)), lambda y: y == me) and ("ReceivedInvalidChannelId" in fmt(t.arg(x, 1)) or any("ReceivedInvalidChannelId" in fmt(a_.node and t.stored(a_)) for g3 in fn_and_closures(t, owner_fn(t, g)) if "{closure" in g3.path for a_ in t.aggrs("error::DisconnectReason", "ReceivedInvalidChannelId", g3))): ok = True
+            if e is None and not ok:
+                # matched some other way (`let Some(ch) = .. else { .. }` is result_edges; a `match` on the Option with the reason in the None arm)
+                for br in t.branches(g):
+                    if br["kind"] == "discr" and contains(norm(br["on"]), lambda y: y == me):
+                        none_t = br["targets"].get(0, br["otherwise"])
+                        if any(s_.bb in g.reachable_from([none_t]) for s_ in t.aggrs("error::DisconnectReason", "ReceivedInvalidChannelId", g)): ok = True
+            if not ok: r.bad("invalid-channel", c, "unknown channel id is not turned into ReceivedInvalidChannelId")
     out.append(r)
     r = RuleResult("C06.c", "accounted receive memory stays within budget and never wraps (PAIR + budget guards, shared with C09)", floor=4)
     for rr in C09.rules(t):
